@@ -1,7 +1,7 @@
 import ast
 import inspect
 from dataclasses import is_dataclass
-from typing import Any, List
+from typing import Any, List, Optional
 
 from func_adl.util_ast import lambda_build
 
@@ -87,18 +87,30 @@ def resolve_syntatic_sugar(a: ast.AST) -> ast.AST:
             return a
 
         def convert_call_to_dict(
-            self, a: ast.Call, node: ast.AST, sig_arg_names: List[str]
+            self,
+            a: ast.Call,
+            node: ast.AST,
+            sig_arg_names: List[str],
+            n_positional: Optional[int] = None,
         ) -> ast.AST:
             """Translate a data class into a dictionary.
 
             Args:
                 a (ast.Call): The call node representing the data class instantiation
                 node (ast.AST): The original AST node
+                sig_arg_names (List[str]): The constructor's parameters, those that can be
+                    given positionally first
+                n_positional (Optional[int]): How many of them can be given positionally
+                    (all of them if None)
 
             Returns:
                 ast.AST: The reformed AST as a dictionary
             """
-            if len(sig_arg_names) < (len(a.args) + len(a.keywords)):
+            if n_positional is None:
+                n_positional = len(sig_arg_names)
+            if len(sig_arg_names) < (len(a.args) + len(a.keywords)) or n_positional < len(
+                a.args
+            ):
                 assert isinstance(a.func, ast.Constant)
                 raise ValueError(
                     f"Too many arguments for dataclass {a.func.value} - {ast.unparse(node)}."
@@ -157,9 +169,12 @@ def resolve_syntatic_sugar(a: ast.AST) -> ast.AST:
 
                     # We have a dataclass. Turn it into a dictionary
                     signature = inspect.signature(a.func.value)  # type: ignore
-                    sig_arg_names = [p.name for p in signature.parameters.values()]
+                    parameters = list(signature.parameters.values())
+                    sig_arg_names = [p.name for p in parameters]
+                    # keyword-only fields come last and take no positional argument
+                    n_positional = len([p for p in parameters if p.kind != p.KEYWORD_ONLY])
 
-                    return self.convert_call_to_dict(a, node, sig_arg_names)
+                    return self.convert_call_to_dict(a, node, sig_arg_names, n_positional)
 
                 elif hasattr(a.func.value, "_fields"):
                     # We have a named tuple. Turn it into a dictionary
